@@ -100,13 +100,29 @@ func checkC20(c *Ctx) {
 }
 
 type btVM struct {
-	vm  *goat.VM
-	out *bytes.Buffer
+	vm    *goat.VM
+	out   *bytes.Buffer
+	ncall int
+}
+
+// btInstall registers the host side of the interpreter program: main.cbOn switches the callback on; main.hostcb re-enters
+// the VM while the script's call chain is active (a script function that makes calls of its own, completed successfully)
+// and returns 7. The calls it makes have returned by the time anything faults: they are not part of the active chain.
+func btInstall(vm *goat.VM, on bool) {
+	vm.Set("main.cbOn", goat.Bool(on))
+	vm.Set("main.hostcb", goat.NewFunc(1, 1, func(vm *goat.VM, args []goat.Value) goat.Value {
+		rets, err := vm.Func(vm.Get("main.cbTarget"), 1, args[0])
+		if err != nil {
+			panic(err)
+		}
+		return rets[0]
+	}))
 }
 
 func btLoad(bp *btProgram, optimize bool) *btVM {
 	var out bytes.Buffer
 	vm := goat.New(goat.WithStdout(&out))
+	btInstall(vm, false)
 	var err error
 	if optimize {
 		err = vm.Load(mapFS(bp.files), "main")
@@ -116,7 +132,7 @@ func btLoad(bp *btProgram, optimize bool) *btVM {
 	if err != nil {
 		fatalf("the generated script-interpreter program does not load: %v", err)
 	}
-	return &btVM{vm, &out}
+	return &btVM{vm: vm, out: &out}
 }
 
 func (b *btVM) call(codes []int) (err error, pan string) {
@@ -131,7 +147,10 @@ func (b *btVM) call(codes []int) (err error, pan string) {
 	for i, x := range codes {
 		vals[i] = goat.Int(x)
 	}
-	goat.VerifSetBudget(2000000)
+	goat.VerifSetBudget(4000000)
+	// every second script runs with the host callback switched on
+	b.ncall++
+	b.vm.Set("main.cbOn", goat.Bool(b.ncall%2 == 0))
 	_, err = b.vm.Call("main.Main", 0, goat.NewSlice(goat.TypeInt32, vals))
 	return
 }
@@ -346,7 +365,8 @@ func c20Backtrace(c *Ctx, r *rand.Rand) {
 			for _, opt := range []bool{true, false} {
 				var out bytes.Buffer
 				vm := goat.New(goat.WithStdout(&out))
-				goat.VerifSetBudget(2000000)
+				btInstall(vm, bi%(2*evalEvery) == 0)
+				goat.VerifSetBudget(4000000)
 				var err error
 				pan := ""
 				func() {
@@ -752,6 +772,7 @@ func btBuild(r *rand.Rand, twoFiles bool) *btProgram {
 	emit(fa, "type T struct {\n\tX int\n}\n\nfunc (t *T) Get() int {\n\treturn t.X\n}\n")
 	emit(fa, "var script []int\nvar pc int\nvar zero int\nvar nilm map[int]int\nvar nilp *T\nvar nilf func()\nvar nils []int\nvar str string = \"ab\"\nvar recv *T = &T{X: 1}\n")
 	emit(fa, "func add(a int, b int) int {\n\treturn a + b\n}\n")
+	emit(fa, "func cbTarget(n int) int {\n\tx := add(n, 3)\n\treturn add(x, 4) - n\n}\n")
 	emit(fa, "func use(s string) int {\n\treturn len(strings.Repeat(s, 2))\n}\n")
 	order := r.Perm(len(btFns))
 	for _, fi := range order {
@@ -778,7 +799,7 @@ func btBuild(r *rand.Rand, twoFiles bool) *btProgram {
 		if fi == 0 {
 			emit(f, "\tscript = s\n\tpc = 0\n\td := 0")
 		}
-		emit(f, "\tacc := 0\n\tarr := []int{1, 2}\n\tfor pc < len(script) {\n\t\top := script[pc]\n\t\tpc++\n\t\tswitch op {")
+		emit(f, "\tacc := 0\n\tarr := []int{1, 2}\n\tfor pc < len(script) {\n\t\top := script[pc]\n\t\tpc++\n\t\tif cbOn {\n\t\t\tacc += hostcb(d) - 7\n\t\t}\n\t\tswitch op {")
 		type caseT struct {
 			code  int
 			lines []string
